@@ -381,8 +381,6 @@ theorem scorePairs_sum {cv : WProfile} (hwf : BallotsWF cv) (c : Cand) :
       ballot_score_sum (hwf bw List.mem_cons_self)]
     simp only [List.map_cons, List.sum_cons]
     congr 1
-    generalize ballotScore bw.1 c = o
-    cases o <;> rfl
 
 theorem sumScores_getD {cv : WProfile} (hwf : BallotsWF cv) (c : Cand) : getD (sumScores cv) c 0 = scoreSum cv c := by
   rw [sumScores_eq_accum, getD_accum, scorePairs_sum hwf]
@@ -401,5 +399,144 @@ theorem sumScores_mem_keys (cv : WProfile) (c : Cand) : c ∈ keys (sumScores cv
 theorem sumScores_nodup (cv : WProfile) : (keys (sumScores cv)).Nodup := by
   rw [sumScores_eq_accum]
   exact nodup_keys_accum _ _ (by simp [keys])
+
+end VL.Score
+
+namespace VL.Score
+open VL VL.Appr
+
+set_option linter.unusedSimpArgs false
+
+/-- the distributor's `elected` dict when every winner won one seat -/
+def electedOfList (el : List Cand) : Elected := el.map (fun c => (Key.cand c, 1))
+
+theorem bump_new : ∀ {e : Elected} {k : Key}, k ∉ e.map (·.1) → ∀ n, bump e k n = e ++ [(k, 0 + n)] := by
+  intro e
+  induction e with
+  | nil => intro k _ n; rfl
+  | cons p rest ih =>
+    intro k hk n
+    obtain ⟨k', v⟩ := p
+    have hne : ¬ k' = k := fun h => hk (by simp [h])
+    have hrest : k ∉ rest.map (·.1) := fun h => hk (by simp [h])
+    simp only [bump, hne, if_false, List.cons_append]
+    rw [ih hrest]
+
+theorem electedOf_new {e : Elected} {c : Cand} (h : Key.cand c ∉ e.map (·.1)) (n : Nat) :
+    electedOf (e ++ [(Key.cand c, n)]) c = n := by
+  unfold electedOf
+  induction e with
+  | nil => simp
+  | cons p rest ih =>
+    have hne : ¬ p.1 = Key.cand c := fun h' => h (by simp [h'])
+    have hrest : Key.cand c ∉ rest.map (·.1) := fun h' => h (by simp [h'])
+    simp only [List.cons_append, List.find?_cons, hne, decide_false]
+    exact ih hrest
+
+theorem removeCand_eq (cv : WProfile) (c : Cand) :
+    cv.foldl (fun d bw => addWeight d (bw.1.filter (fun p => p.1 ≠ c)) bw.2) [] = removeCand cv c := rfl
+
+/-- **The allocated-score loop equals its definition** wherever the definition is defined, from any state -/
+theorem allocLoop_eq_spec (q : Rat) (hq : 0 ≤ q) : ∀ (rem fuel : Nat) (cv : WProfile) (el ws : List Cand),
+    rem ≤ fuel → WFW cv → BallotsWF cv → (∀ c ∈ el, c ∉ gradedCands cv) →
+    allocSpecGo q rem cv el = some ws →
+    allocLoop q fuel cv (electedOfList el) rem = .ok (electedOfList ws) := by
+  intro rem
+  induction rem with
+  | zero =>
+    intro fuel cv el ws _ _ _ _ h
+    simp only [allocSpecGo] at h
+    injection h with h; subst h
+    cases fuel <;> simp [allocLoop]
+  | succ rem ih =>
+    intro fuel cv el ws hfuel hwf hbwf hel h
+    cases fuel with
+    | zero => omega
+    | succ fuel =>
+      unfold allocSpecGo at h
+      cases hro : ballotRanOut cv with
+      | true => rw [hro] at h; simp at h
+      | false =>
+        rw [hro] at h
+        simp only [Bool.false_eq_true, if_false] at h
+        -- the round table
+        have hnd := sumScores_nodup cv
+        have hval : ∀ p ∈ sumScores cv, p.2 = scoreSum cv p.1 := by
+          intro p hp
+          rw [← sumScores_getD hbwf, getD_of_mem hnd hp]
+        have hgnd : (gradedCands cv).Nodup := sortDedup_nodup _
+        have tr := table_round hnd hgnd (sumScores_mem_keys cv) (scoreSum cv) hval
+        simp only at tr
+        -- the spec's winner
+        rcases hf : (gradedCands cv).filter (fun c => (gradedCands cv).all
+            (fun d => decide (scoreSum cv d ≤ scoreSum cv c))) with _ | ⟨c, _ | ⟨b, r⟩⟩
+        · rw [hf] at h; cases h
+        · rw [hf] at h
+          simp only at h
+          have hbest : getNBest (sumScores cv) 1 = [Slot.cand c] := by
+            rcases tr with ⟨h1, _⟩ | ⟨c', _, h2, h3⟩ | ⟨_, h2, _⟩
+            · rw [h1] at hf; simp at hf
+            · rw [hf] at h2; injection h2 with h2; subst h2; exact h3
+            · exact absurd hf (h2 c)
+          have hcg : c ∈ gradedCands cv := by
+            have : c ∈ (gradedCands cv).filter (fun c => (gradedCands cv).all
+                (fun d => decide (scoreSum cv d ≤ scoreSum cv c))) := by rw [hf]; simp
+            exact (List.mem_filter.mp this).1
+          have hcel : c ∉ el := fun hc => hel c hc hcg
+          have hkey : Key.cand c ∉ (electedOfList el).map (·.1) := by
+            intro hk
+            simp only [electedOfList, List.map_map, List.mem_map, Function.comp] at hk
+            obtain ⟨x, hx, he⟩ := hk
+            injection he with he
+            exact hcel (he ▸ hx)
+          cases hs : spendSpec (cv.length + 1) cv c q with
+          | none => rw [hs] at h; cases h
+          | some cv1 =>
+            rw [hs] at h
+            simp only at h
+            have hfo := spendSpec_fractionOut _ cv c q cv1 hwf hs
+            obtain ⟨_, hwf1, _⟩ := fractionOut_spends _ cv c q cv1 hfo (by omega) hq hwf
+            obtain ⟨hwf2, hball2⟩ := removeCand_spec hwf1.2 c
+            have hsub1 := spendSpec_ballots _ cv c q cv1 hs
+            -- invariants for the next round
+            have hbwf2 : BallotsWF (removeCand cv1 c) := by
+              intro p hp
+              obtain ⟨bw1, hbw1, he⟩ := hball2 p hp
+              obtain ⟨bw, hbw, he1⟩ := hsub1 bw1 hbw1
+              rw [he, he1]
+              exact ((List.filter_sublist).map _).nodup (hbwf bw hbw)
+            have hel2 : ∀ x ∈ el ++ [c], x ∉ gradedCands (removeCand cv1 c) := by
+              intro x hx hg
+              obtain ⟨p, hp, hxp⟩ := mem_gradedCands.mp hg
+              obtain ⟨bw1, hbw1, he⟩ := hball2 p hp
+              obtain ⟨bw, hbw, he1⟩ := hsub1 bw1 hbw1
+              rw [he, he1] at hxp
+              obtain ⟨y, hy, hyx⟩ := List.mem_map.mp hxp
+              have hy' := List.mem_filter.mp hy
+              rcases List.mem_append.mp hx with hx | hx
+              · exact hel x hx (mem_gradedCands.mpr ⟨bw, hbw, List.mem_map.mpr ⟨y, hy'.1, hyx⟩⟩)
+              · simp at hx; subst hx
+                have := hy'.2
+                simp only [ne_eq, decide_not, Bool.not_eq_true', decide_eq_false_iff_not] at this
+                exact this hyx
+            have hrec := ih fuel (removeCand cv1 c) (el ++ [c]) ws (by omega) hwf2 hbwf2 hel2 h
+            -- the code
+            unfold allocLoop
+            rw [if_neg (by omega), hbest]
+            simp only
+            rw [bump_new hkey 1]
+            have he1 : electedOfList el ++ [(Key.cand c, 0 + 1)] = electedOfList (el ++ [c]) := by
+              simp [electedOfList]
+            have heo : electedOf (electedOfList el ++ [(Key.cand c, 0 + 1)]) c = 1 := by
+              rw [electedOf_new hkey]
+            rw [heo]
+            unfold subtractVotes
+            rw [hfo]
+            simp only [bind, Except.bind, if_true, pure, Except.pure]
+            rw [removeCand_eq, he1]
+            have : rem + 1 - 1 = rem := by omega
+            rw [this]
+            exact hrec
+        · rw [hf] at h; cases h
 
 end VL.Score
